@@ -13,8 +13,8 @@ import tv
 BURST_COLS = {'cycles': record.FEAT4, 'amp': ['burst_fraction']}
 
 
-def _rec(case):
-    rec, df = record.record_compute_features(case)
+def _rec(case, opts_obj=None):
+    rec, df = record.record_compute_features(case, opts_obj=opts_obj)
     side = {'raised': rec['raised'], 'pos': rec['filt']['pos'], 'mask': rec['dt']['mask'], 'L': rec['flen']['L'], 'rows': []}
     if df is not None:
         method = case['opts']['burst_method']
@@ -63,8 +63,13 @@ def run(ctx, rel, n_cases, prefixes, seed_offset, max_len=900, kinds=None):
         if rel != 'C09.mirror':
             c['opts']['return_samples'] = True
         b, desc = _variant(c, rel, rng)
-        ra, sa = _rec(c)
-        rb, sb = _rec(b)
+        shared = None
+        if rel == 'C10.fs' and len(pairs) % 2 == 0:
+            # the user re-uses the SAME option objects for the second call (fs and band in other units): settings must not go stale
+            shared = copy.deepcopy(c['opts'])
+            desc += ' (both calls with the same option objects)'
+        ra, sa = _rec(c, shared)
+        rb, sb = _rec(b, shared)
         singles += [ra, rb]
         pairs.append({'rel': rel, 'A': sa, 'B': sb})
         descs.append(desc)
